@@ -162,6 +162,10 @@ func (w *World) contractFor(fn *ssa.Function) *Contract {
 	if c, ok := w.contracts[calleeName(fn)]; ok {
 		return c
 	}
+	// instance of a generic function: the contract is written on the origin
+	if o := fn.Origin(); o != nil && o != fn {
+		return w.contractFor(o)
+	}
 	return nil
 }
 
